@@ -536,10 +536,12 @@ def grp_cross_config(a, b):
     if rel * n > 1e-3:
         a.tags.append("ill_conditioned_skipped")
         return None     # the envelope is no longer small against the values: nothing can be concluded
+    ymax = max([abs(v) for v in sa["y"] + sb["y"] if v == v and abs(v) != float("inf")] + [1e-300])
     for i, (u, v) in enumerate(zip(sa["y"], sb["y"])):
         if (u != u) and (v != v):
             continue
-        scale = max(abs(u), abs(v), 1e-30)
+        # a value that is rounding residue of the cell's large concentrations (cancellation) carries no relative accuracy
+        scale = max(abs(u), abs(v), 1e-9 * ymax)
         if abs(u - v) > rel * n * scale + 1e-300:
             return (f"configurations disagree beyond rounding with identical step histories: y[{i}] = {u!r} ({a.meta.get('cfg')}) vs {v!r} "
                     f"({b.meta.get('cfg')}); steps {sa['stats']['steps']}")
@@ -565,6 +567,8 @@ def att_totals(c):
         total = alpha if m["kind"] >= 2 else total + alpha
         out.append((total, err))
         H = 1.0 / (total * gamma) if total > 0 else float("inf")
+        if hmin > 0 and abs(H - hmin) <= 1e-9 * hmin and not err < 1:
+            break                # H sits on h_min (clamped): whether `H < h_min` held cannot be re-derived from 1/(gamma alpha)
         if err < 1 or H < hmin:
             total = 0.0          # accepted: the next step starts from an un-shifted Jacobian
     return out
@@ -587,9 +591,8 @@ def first_attempt_disagreement(a, b):
             return (f"attempt #{q + 1} (the {q} earlier attempts agree in step size and error norm): the total diagonal shift applied is {al_a!r} "
                     f"({a.meta.get('cfg')}) vs {al_b!r} ({b.meta.get('cfg')}) although both were asked for the same step size -- the matrices "
                     f"the two configurations factor are not the same I/(gamma H) - J")
-        if same_alpha and de > 1e-5 and max(e_a, e_b) > 1e-8:
-            return (f"attempt #{q + 1} (the {q} earlier attempts agree; same step size, alpha = {al_a!r}): error norm {e_a!r} ({a.meta.get('cfg')}) vs "
-                    f"{e_b!r} ({b.meta.get('cfg')}) -- the two configurations do not solve the same linear systems")
+        # (a different error norm for the same attempt is NOT conclusive: near-singular matrices amplify the rounding
+        #  differences between, say, Doolittle and Mozart factors to any size -- seen on the clean tree)
         return None              # they parted through the step size (a decision near its threshold) or by a rounding-sized amount
     return None
 
